@@ -27,6 +27,10 @@ def normalise(v):
 def generate(ctx):
     g, r = ctx.g, ctx.rng
     vals = []
+    # element counts around 2^16 and 2^24, where the count spills into the next header byte (2^24: into the byte that also holds
+    # the container type -- the first-byte sniffing of functions.rs does not recognise such a document, which is the recorded
+    # finding of C05 / C11, but both DECODERS must): implementation only, the list-based model cannot hold 16 million elements
+    ctx.big_counts = [ctx.add('big_count_roundtrip %d' % n, diff=False) for n in ([65535, 65536, 65537, (1 << 24) - 1, 1 << 24] + ([(1 << 24) + 1] if ctx.tier == 'thorough' else []))]
     # corpus of shapes the tests never sample
     n = ('n',)
     vals += [n, ('b', True), ('b', False), ('s', b''), ('a', []), ('o', []), ('a', [('a', []), ('o', []), ('a', [('o', [])])]),
@@ -91,6 +95,13 @@ def generate(ctx):
 
 def judge(ctx):
     impl = ctx.impl
+    for c in ctx.big_counts:
+        o = impl.get(c.id, 'missing')
+        ctx.count('big_element_counts', c.line.split(' ')[-1])
+        if o in ('panic', 'timeout', 'missing') or o.startswith('abort'):
+            continue     # the generic rule reports these
+        if not (o.startswith('ok ') and o.endswith('from_slice=true parse_jsonb=true')):
+            ctx.violate('an array with this many elements does not survive encoding and decoding', case=c.line, observed=o)
     for c in ctx.cases:
         m = c.meta
         if not m:
